@@ -12,7 +12,7 @@ Decided:
 """
 import re
 from core import enum_matches, select_arms, V, walk, calls, peel, callee_matches, var_name, expr_vars, trace_is_call
-from kit import need_body, has_call, short, guard_sites, result_expr, mentions_field, thir_all
+from kit import collector_never_breaks, need_body, has_call, short, guard_sites, result_expr, mentions_field, thir_all
 
 WF = "chalk_solve::wf::"
 TERM = re.compile(r"chalk_ir::(Ty|Substitution|Lifetime|Const|DynTy|ProjectionTy|OpaqueTy|AliasTy)<")
@@ -179,3 +179,9 @@ def run(ck, facts, tier):
                     ck.ok(R, "visit_where_clause:%s" % v, "descends" if visits else "no types inside")
                 else:
                     ck.violation(R, "visit_where_clause:%s" % v, vw.where(arm["ln"]), "input types of `%s` clauses are %scollected" % (v, "" if visits else "not "))
+
+    R = "C21.COLLECT-ALL"
+    ck.rule(R, "K1: InputTypeCollector (the visitor that gathers the types whose well-formedness is demanded / assumed) never aborts its "
+               "traversal: no visit method returns ControlFlow::Break, so a type parameter, fn pointer or other leaf met early cannot hide "
+               "the types visited after it")
+    collector_never_breaks(ck, R, facts, "chalk_solve", "<chalk_solve::wf::InputTypeCollector as chalk_ir::visit::TypeVisitor>::", "InputTypeCollector", 2)
